@@ -15,7 +15,7 @@ use crate::props::c13::{check_container, seq_strategy};
 use crate::runner::{guarded, CheckResult, EnumJob, Env, Job, JobReport, Outcome, PropJob};
 use crate::util::{is_pal, rc, to_ascii, Seq};
 
-pub const RULE: &str = "k-mers: all 4^K values for K<=8 (exhaustive) and generated values biased to palindromes / near-palindromes / homopolymers for all 20 types: rc is the string reverse complement, an involution, min_rc is the string minimum and equal for both strands, min_rc_flip's flag tells whether the result is the reverse complement, is_palindrome <=> string equals its reverse complement. Extension sets: all 256 values (exhaustive) against a set model for complement/reverse/rc. Containers: sequences of length 0..~200 biased to 0,1,31,32,33,63,64,65 in DnaString, Lmer of 1..6 words, forward/rc/nested DnaStringSlice: rc(x)[i] = 3 - x[n-1-i], involution, cross-container agreement, and every k-mer accessor of the reverse-complemented container equals the k-mers of the reverse-complemented plain string (all K types). Non-trivial = value is not a homopolymer / sequence length >= 2.";
+pub const RULE: &str = "k-mers: all 4^K values for K<=8 (exhaustive) and generated values biased to palindromes / near-palindromes / homopolymers for all 20 types: rc is the string reverse complement, an involution, min_rc is the string minimum and equal for both strands, min_rc_flip's flag tells whether the result is the reverse complement, is_palindrome <=> string equals its reverse complement. Extension sets: all 256 values (exhaustive) against a set model for complement/reverse/rc. Containers: sequences of length 0..~200 biased to 0,1,31,32,33,63,64,65 in DnaString, Lmer of 1..6 words, forward/rc/nested DnaStringSlice: rc(x)[i] = 3 - x[n-1-i], involution, cross-container agreement, view == view.rc() exactly when the sequence is its own reverse complement (S+rc(S) windows inside longer strings), slicing of reverse-complemented views, and every k-mer accessor of the reverse-complemented container equals the k-mers of the reverse-complemented plain string (all K types). Non-trivial = value is not a homopolymer / sequence length >= 2.";
 pub const TECHNIQUE: &str = "exhaustive enumeration (256 extension sets, K<=8 k-mers) + seeded proptest; algebraic laws and string model";
 
 /// All rc-related laws for one k-mer value.
